@@ -333,6 +333,7 @@ func (p *asyncProducer) dispatcher() {
 			continue
 		}
 
+		verifPoint("dispatcher.recv", msg, shuttingDown, p)
 		if msg.flags&shutdown != 0 {
 			shuttingDown = true
 			p.inFlight.Done()
@@ -343,6 +344,7 @@ func (p *asyncProducer) dispatcher() {
 				// which hasn't been incremented yet for this message, and shouldn't be
 				pErr := &ProducerError{Msg: msg, Err: ErrShuttingDown}
 				if p.conf.Producer.Return.Errors {
+					verifPoint("return.rawerror", msg, pErr.Err, p)
 					p.errors <- pErr
 				} else {
 					Logger.Println(pErr)
@@ -378,6 +380,7 @@ func (p *asyncProducer) dispatcher() {
 			handlers[msg.Topic] = handler
 		}
 
+		verifPoint("dispatcher.forward", msg, p)
 		handler <- msg
 	}
 
@@ -414,6 +417,7 @@ func (p *asyncProducer) newTopicProducer(topic string) chan<- *ProducerMessage {
 
 func (tp *topicProducer) dispatch() {
 	for msg := range tp.input {
+		verifPoint("tp.recv", msg, tp.parent)
 		if msg.retries == 0 {
 			if err := tp.partitionMessage(msg); err != nil {
 				tp.parent.returnError(msg, err)
@@ -427,6 +431,7 @@ func (tp *topicProducer) dispatch() {
 			tp.handlers[msg.Partition] = handler
 		}
 
+		verifPoint("tp.forward", msg, tp.parent)
 		handler <- msg
 	}
 
@@ -540,6 +545,7 @@ func (pp *partitionProducer) dispatch() {
 		pp.brokerProducer.input <- &ProducerMessage{Topic: pp.topic, Partition: pp.partition, flags: syn}
 	}
 
+	verifPoint("pp.start", pp)
 	defer func() {
 		if pp.brokerProducer != nil {
 			pp.parent.unrefBrokerProducer(pp.leader, pp.brokerProducer)
@@ -547,10 +553,12 @@ func (pp *partitionProducer) dispatch() {
 	}()
 
 	for msg := range pp.input {
+		verifPoint("pp.recv", msg, pp)
 		if pp.brokerProducer != nil && pp.brokerProducer.abandoned != nil {
 			select {
 			case <-pp.brokerProducer.abandoned:
 				// a message on the abandoned channel means that our current broker selection is out of date
+				verifPoint("pp.abandon", pp)
 				Logger.Printf("producer/leader/%s/%d abandoning broker %d\n", pp.topic, pp.partition, pp.leader.ID())
 				pp.parent.unrefBrokerProducer(pp.leader, pp.brokerProducer)
 				pp.brokerProducer = nil
@@ -590,10 +598,12 @@ func (pp *partitionProducer) dispatch() {
 
 		if pp.brokerProducer == nil {
 			if err := pp.updateLeader(); err != nil {
+				verifPoint("pp.leader", pp, err)
 				pp.parent.returnError(msg, err)
 				pp.backoff(msg.retries)
 				continue
 			}
+			verifPoint("pp.leader", pp, nil)
 			Logger.Printf("producer/leader/%s/%d selected broker %d\n", pp.topic, pp.partition, pp.leader.ID())
 		}
 
@@ -606,11 +616,13 @@ func (pp *partitionProducer) dispatch() {
 			msg.hasSequence = true
 		}
 
+		verifPoint("pp.send", msg, pp)
 		pp.brokerProducer.input <- msg
 	}
 }
 
 func (pp *partitionProducer) newHighWatermark(hwm int) {
+	verifPoint("pp.newHWM", pp, hwm)
 	Logger.Printf("producer/leader/%s/%d state change to [retrying-%d]\n", pp.topic, pp.partition, hwm)
 	pp.highWatermark = hwm
 
@@ -630,16 +642,20 @@ func (pp *partitionProducer) flushRetryBuffers() {
 	Logger.Printf("producer/leader/%s/%d state change to [flushing-%d]\n", pp.topic, pp.partition, pp.highWatermark)
 	for {
 		pp.highWatermark--
+		verifPoint("pp.flush.level", pp)
 
 		if pp.brokerProducer == nil {
 			if err := pp.updateLeader(); err != nil {
+				verifPoint("pp.leader", pp, err)
 				pp.parent.returnErrors(pp.retryState[pp.highWatermark].buf, err)
 				goto flushDone
 			}
+			verifPoint("pp.leader", pp, nil)
 			Logger.Printf("producer/leader/%s/%d selected broker %d\n", pp.topic, pp.partition, pp.leader.ID())
 		}
 
 		for _, msg := range pp.retryState[pp.highWatermark].buf {
+			verifPoint("pp.send", msg, pp)
 			pp.brokerProducer.input <- msg
 		}
 
@@ -697,6 +713,7 @@ func (p *asyncProducer) newBrokerProducer(broker *Broker) *brokerProducer {
 	go withRecover(func() {
 		for set := range bridge {
 			request := set.buildRequest()
+			verifPoint("bridge.send", bp, set)
 
 			response, err := broker.Produce(request)
 
@@ -750,6 +767,7 @@ func (bp *brokerProducer) run() {
 		select {
 		case msg, ok := <-bp.input:
 			if !ok {
+				verifPoint("bp.closed", bp)
 				Logger.Printf("producer/broker/%d input chan closed\n", bp.broker.ID())
 				bp.shutdown()
 				return
@@ -759,6 +777,7 @@ func (bp *brokerProducer) run() {
 				continue
 			}
 
+			verifPoint("bp.recv", msg, bp)
 			if msg.flags&syn == syn {
 				Logger.Printf("producer/broker/%d state change to [open] on %s/%d\n",
 					bp.broker.ID(), msg.Topic, msg.Partition)
@@ -804,12 +823,15 @@ func (bp *brokerProducer) run() {
 				continue
 			}
 
+			verifPoint("bp.add", msg, bp)
 			if bp.parent.conf.Producer.Flush.Frequency > 0 && bp.timer == nil {
 				bp.timer = time.After(bp.parent.conf.Producer.Flush.Frequency)
 			}
 		case <-bp.timer:
+			verifPoint("bp.timer", bp)
 			bp.timerFired = true
 		case output <- bp.buffer:
+			verifPoint("bp.flush", bp)
 			bp.rollOver()
 		case response, ok := <-bp.responses:
 			if ok {
@@ -830,11 +852,13 @@ func (bp *brokerProducer) run() {
 }
 
 func (bp *brokerProducer) shutdown() {
+	verifPoint("bp.shutdown", bp)
 	for !bp.buffer.empty() {
 		select {
 		case response := <-bp.responses:
 			bp.handleResponse(response)
 		case bp.output <- bp.buffer:
+			verifPoint("bp.flush", bp)
 			bp.rollOver()
 		}
 	}
@@ -843,6 +867,7 @@ func (bp *brokerProducer) shutdown() {
 		bp.handleResponse(response)
 	}
 	close(bp.stopchan)
+	verifPoint("bp.shutdown.end", bp)
 	Logger.Printf("producer/broker/%d shut down\n", bp.broker.ID())
 }
 
@@ -855,6 +880,7 @@ func (bp *brokerProducer) needsRetry(msg *ProducerMessage) error {
 }
 
 func (bp *brokerProducer) waitForSpace(msg *ProducerMessage, forceRollover bool) error {
+	verifPoint("bp.waitForSpace", msg, bp, forceRollover)
 	for {
 		select {
 		case response := <-bp.responses:
@@ -866,6 +892,7 @@ func (bp *brokerProducer) waitForSpace(msg *ProducerMessage, forceRollover bool)
 				return nil
 			}
 		case bp.output <- bp.buffer:
+			verifPoint("bp.flush", bp)
 			bp.rollOver()
 			return nil
 		}
@@ -876,9 +903,11 @@ func (bp *brokerProducer) rollOver() {
 	bp.timer = nil
 	bp.timerFired = false
 	bp.buffer = newProduceSet(bp.parent)
+	verifPoint("bp.rollover", bp)
 }
 
 func (bp *brokerProducer) handleResponse(response *brokerProducerResponse) {
+	verifPoint("bp.response", bp, response)
 	if response.err != nil {
 		bp.handleError(response.set, response.err)
 	} else {
@@ -978,6 +1007,7 @@ func (bp *brokerProducer) handleSuccess(sent *produceSet, response *ProduceRespo
 
 func (p *asyncProducer) retryBatch(topic string, partition int32, pSet *partitionSet, kerr KError) {
 	Logger.Printf("Retrying batch for %v-%d because of %s\n", topic, partition, kerr)
+	verifPoint("retryBatch.start", p, topic, partition, pSet, kerr)
 	produceSet := newProduceSet(p)
 	produceSet.msgs[topic] = make(map[int32]*partitionSet)
 	produceSet.msgs[topic][partition] = pSet
@@ -994,6 +1024,7 @@ func (p *asyncProducer) retryBatch(topic string, partition int32, pSet *partitio
 
 	// it's expected that a metadata refresh has been requested prior to calling retryBatch
 	leader, err := p.client.Leader(topic, partition)
+	verifPoint("retryBatch.leader", p, leader, err)
 	if err != nil {
 		Logger.Printf("Failed retrying batch for %v-%d because of %v while looking up for new leader\n", topic, partition, err)
 		for _, msg := range pSet.msgs {
@@ -1002,6 +1033,7 @@ func (p *asyncProducer) retryBatch(topic string, partition int32, pSet *partitio
 		return
 	}
 	bp := p.getBrokerProducer(leader)
+	verifPoint("retryBatch.send", p, bp, produceSet)
 	bp.output <- produceSet
 }
 
@@ -1040,6 +1072,7 @@ func (p *asyncProducer) retryHandler() {
 			select {
 			case msg = <-p.retries:
 			case p.input <- buf.Peek().(*ProducerMessage):
+				verifPoint("rh.forward", buf.Peek(), p)
 				buf.Remove()
 				continue
 			}
@@ -1049,6 +1082,7 @@ func (p *asyncProducer) retryHandler() {
 			return
 		}
 
+		verifPoint("rh.recv", msg, p)
 		buf.Add(msg)
 	}
 }
@@ -1057,10 +1091,12 @@ func (p *asyncProducer) retryHandler() {
 
 func (p *asyncProducer) shutdown() {
 	Logger.Println("Producer shutting down.")
+	verifPoint("shutdown.begin", p)
 	p.inFlight.Add(1)
 	p.input <- &ProducerMessage{flags: shutdown}
 
 	p.inFlight.Wait()
+	verifPoint("shutdown.wake", p)
 
 	err := p.client.Close()
 	if err != nil {
@@ -1071,9 +1107,11 @@ func (p *asyncProducer) shutdown() {
 	close(p.retries)
 	close(p.errors)
 	close(p.successes)
+	verifPoint("shutdown.end", p)
 }
 
 func (p *asyncProducer) returnError(msg *ProducerMessage, err error) {
+	verifPoint("return.error", msg, err, p)
 	// We need to reset the producer ID epoch if we set a sequence number on it, because the broker
 	// will never see a message with this number, so we can never continue the sequence.
 	if msg.hasSequence {
@@ -1098,6 +1136,7 @@ func (p *asyncProducer) returnErrors(batch []*ProducerMessage, err error) {
 
 func (p *asyncProducer) returnSuccesses(batch []*ProducerMessage) {
 	for _, msg := range batch {
+		verifPoint("return.success", msg, p)
 		if p.conf.Producer.Return.Successes {
 			msg.clear()
 			p.successes <- msg
@@ -1111,6 +1150,7 @@ func (p *asyncProducer) retryMessage(msg *ProducerMessage, err error) {
 		p.returnError(msg, err)
 	} else {
 		msg.retries++
+		verifPoint("retry.enqueue", msg, err, p)
 		p.retries <- msg
 	}
 }
@@ -1154,6 +1194,7 @@ func (p *asyncProducer) unrefBrokerProducer(broker *Broker, bp *brokerProducer) 
 }
 
 func (p *asyncProducer) abandonBrokerConnection(broker *Broker) {
+	verifPoint("registry.abandon", p, broker)
 	p.brokerLock.Lock()
 	defer p.brokerLock.Unlock()
 
